@@ -356,7 +356,9 @@ PROPS["C14"] = {
              "replayed on the Lean model; non-trivial = the two schemas differ; distinct by generator draw"),
     "trusted_base": COMMON_TB + [
         "Stef/Handshake.lean is a hand transcription of WireSchema.Compatible, of the decision part of Client.Connect and "
-        "of the option handling of New<Root>Writer, tied by h_hs",
+        "of the option handling of New<Root>Writer, tied by h_hs AND proved equal (Proofs/HandshakeGen) to the functions that "
+        "extract/handshake.go translates statement by statement from the current source (Gen/Handshake.lean); trusted there: "
+        "the translator (schema = list of its structCounts, uint = Nat, error = Bool) and Stef/HandshakeSem.lean",
         "gRPC transport of the capabilities message",
     ],
     "assumptions": ["the data path across generated packages of two schema versions is covered by C04 (h_gen), not here"],
@@ -544,6 +546,20 @@ PROPS["C14"]["runner_args"] = ["c04"]
 PROPS["C14"]["oracle_prefixes"] = ["sd decode", "sd values"]
 PROPS["C14"]["runner_as_props"] = ["C04"]
 PROPS["C14"]["lean_modules"].append("Stef.Props.C04")
+# C14: the decision logic is REGENERATED from the source on every run (generator Handshake -> Gen/Handshake.lean) and
+# proved equal to the hand model; Props/C14Gen restates the handshake theorems for the regenerated functions
+PROPS["C14"]["lean_modules"].append("Stef.Props.C14Gen")
+PROPS["C14"]["needs_gen"] = ["Tables", "Consts", "CallSites", "Handshake"]
+PROPS["C14"]["level_text"] += (" Props/C14Gen: the same theorems for the functions REGENERATED from the current source "
+                               "(WireSchema.Compatible, the decision part of Client.Connect, the option handling of New<Root>Writer, "
+                               "translated statement by statement by extract/handshake.go and proved equal to the hand model in "
+                               "Proofs/HandshakeGen: compatibleE_eq, connect_eq, writerOpts_eq): gen_connect_dict_limit, "
+                               "gen_connect_frame_unset, gen_writer_dict_limit, gen_writer_frame_limit, gen_connect_exact, "
+                               "gen_compatible_exact_iff, gen_compatible_err_iff, gen_connect_sound_partial, gen_connect_sound_false, "
+                               "gen_connect_total (the error return of the incompatible branch is dead), and "
+                               "gen_writer_limiter_defaulted (regenerated fact: writer.state.Init gets &writer.opts, the copy with the "
+                               "defaults applied - a writer made from Connect's options cuts frames at DefaultMaxFrameSize and enforces "
+                               "the advertised dictionary limit).")
 PROPS["C03"]["harness"].append({"bin": "h_codec", "args": ["hostile"]})
 
 PROPS["C09"]["needs_gen"] = ["Funcs"]
@@ -563,6 +579,29 @@ for _p in ("C01", "C06"):
                                 "(560+ records alternating a 20 000-element and an empty array, as one frame and as many) run the real reader.")
 PROPS["C03"]["lean_modules"].append("Stef.Props.Budget")
 PROPS["C03"]["needs_gen"] = ["Tables", "Consts", "CallSites", "Budget"]
+
+# the writer's control flow is REGENERATED (DESIGN 0.2d): extract/writerflow.go translates the bodies of Write() /
+# Flush() / restartFrame() of the checked-in generated writers statement by statement into Gen/WriterFlow.lean (data
+# of the statement language of Stef/WriterFlowSem.lean) and the methods of go/pkg/dictlimiter.go into Lean functions;
+# Proofs/WriterFlow proves them equal to the hand model of Stef/Limiter.lean on every state, Props/C08Flow restates
+# the C08 / C06 writer theorems for them. C14 ("the advertised limit is in force") and C06 (flush_leaves_nothing_open)
+# rest on the same machinery.
+for _p in ("C08", "C14", "C06"):
+    PROPS[_p]["lean_modules"].append("Stef.Props.C08Flow")
+    PROPS[_p]["needs_gen"] = list(PROPS[_p].get("needs_gen", ("Tables", "Consts", "CallSites"))) + ["WriterFlow"]
+PROPS["C08"]["trusted_base"] = COMMON_TB + [
+    "Stef/Limiter.lean: SizeLimiter and the Write/Flush/restartFrame control flow are no longer trusted as transcriptions: "
+    "both are regenerated from the current source (Gen/WriterFlow.lean) and proved equal to Limiter.lean on every state "
+    "(Proofs/WriterFlow); what is trusted instead is the meaning given to each whitelisted statement / call in "
+    "Stef/WriterFlowSem.lean (at the level of sizes: error returns, RestartCodecs and the bytes of a frame are not modelled) "
+    "and the translator extract/writerflow.go; SizeLimiter is additionally tied op-for-op by h_prim limiter",
+]
+PROPS["C08"]["level_text"] += (" Props/C08Flow: the same statements for the REGENERATED control flow - flow_is_hand_model (the bodies of "
+                               "Write() / Flush() / restartFrame() of the current metricswriter.go / spanswriter.go, translated statement by "
+                               "statement, equal the model on every state and history), flow_state_between_calls (frameRecordCount agrees "
+                               "with the open frame, nothing pending in the buffers, record counts right), dict_below_limit_between_writes, "
+                               "dict_peak_bound, reset_announced, frame_bound, open_frame_below_limit, flush_leaves_nothing_open; "
+                               "limiter_is_hand_model (the methods of the current dictlimiter.go equal SizeLimiter.* of the model).")
 
 HGEN_TB = CODEC_TB + [
     "lib/hgen.py + harness/cmd/h_gen (schema generator, append-only evolver, driver template) + harness/hgenlib (driver "
